@@ -41,10 +41,11 @@ type balModel struct {
 	supply    *big.Int
 	epoch     int64
 	usedLocks int
+	bulkDone  bool // the one-shot lockMany operation has run
 }
 
 func (m *balModel) Clone() Model {
-	c := &balModel{bal: map[string]*big.Int{}, locks: map[string]lockRec{}, supply: new(big.Int).Set(m.supply), epoch: m.epoch, usedLocks: m.usedLocks}
+	c := &balModel{bal: map[string]*big.Int{}, locks: map[string]lockRec{}, supply: new(big.Int).Set(m.supply), epoch: m.epoch, usedLocks: m.usedLocks, bulkDone: m.bulkDone}
 	for k, v := range m.bal {
 		c.bal[k] = new(big.Int).Set(v)
 	}
@@ -82,6 +83,7 @@ type balOp struct {
 	signer string // C, from, to, S, from+C, nobody
 	de     int64  // epoch delta for tick
 	via    string // "Kc": the call is forwarded by the probe contract
+	data   string // transfer: the NEP-17 data argument (nil when empty): "b" a byte string, "i" an integer, "a" an array
 }
 
 type BalDriver struct {
@@ -158,6 +160,10 @@ func NewBalDriver(mode string) *BalDriver {
 			balOp{kind: "transfer", from: "L1", to: "A", amt: bigS("3"), signer: "to"},
 			balOp{kind: "transferX", from: "A", to: "A", amt: bigS("5"), signer: "C"},
 			balOp{kind: "transferX", from: "A", to: "B", amt: bigS("0"), signer: "C"})
+		// the public transfer with something in its data argument
+		add(balOp{kind: "transfer", from: "A", to: "B", amt: bigS("3"), signer: "from", data: "b"},
+			balOp{kind: "transfer", from: "A", to: "B", amt: bigS("3"), signer: "S", data: "b"},
+			balOp{kind: "transfer", from: "A", to: "B", amt: bigS("8"), signer: "from", data: "i"})
 		add(balOp{kind: "tick", signer: "C", de: 1}, balOp{kind: "tick", signer: "S", de: 1},
 			balOp{kind: "balEpoch", signer: "S"}, balOp{kind: "balEpoch", signer: "C"},
 			// a direct, Alphabet-signed call that runs ahead of Netmap's counter
@@ -249,7 +255,21 @@ func NewBalDriver(mode string) *BalDriver {
 			// a lock account is nobody's to spend: not its parent's, not a stranger's
 			balOp{kind: "transfer", from: "L1", to: "A", amt: bigS("3"), signer: "to"},
 			balOp{kind: "transfer", from: "L1", to: "B", amt: bigS("3"), signer: "S"},
+			// ... but it can be paid into like any address, and so can the address the next lock will use
+			balOp{kind: "transfer", from: "A", to: "L1", amt: bigS("3"), signer: "from"}, balOp{kind: "transfer", from: "A", to: "L1", amt: bigS("3"), signer: "S"},
+			balOp{kind: "transfer", from: "A", to: "L1", amt: bigS("8"), signer: "from"}, balOp{kind: "transfer", from: "B", to: "Lnext", amt: bigS("3"), signer: "from"},
 		)
+		// what the data argument of the public transfer holds is the receiver's business: every signer set again with a byte
+		// string, an integer and an array in it
+		for _, dt := range []string{"b", "i", "a"} {
+			for _, sg := range []string{"from", "to", "S", "C", "nobody", "M"} {
+				add(balOp{kind: "transfer", from: "A", to: "B", amt: bigS("3"), signer: sg, data: dt})
+			}
+			add(balOp{kind: "transfer", from: "A", to: "A", amt: bigS("3"), signer: "S", data: dt},
+				balOp{kind: "transfer", from: "Bal", to: "A", amt: bigS("3"), signer: "S", data: dt},
+				balOp{kind: "transfer", from: "A", to: "B", amt: bigS("8"), signer: "from", data: dt},
+				balOp{kind: "transfer", from: "A", to: "B", amt: bigS("-5"), signer: "to", data: dt})
+		}
 	case "C09":
 		add(balOp{kind: "mint", to: "A", amt: bigS("10"), signer: "C"})
 		for _, a := range amts("0", "3", "5") {
@@ -281,6 +301,14 @@ func NewBalDriver(mode string) *BalDriver {
 			balOp{kind: "transfer", from: "L1", to: "A", amt: bigS("1"), signer: "to"},
 			balOp{kind: "transfer", from: "L1", to: "A", amt: bigS("1"), signer: "S"},
 		)
+	case "C09many":
+		// more locks expiring at one tick than any per-call limit one might think of: 40 locks of one owner made by one
+		// transaction, next to an ordinary one with a later term
+		add(balOp{kind: "mint", to: "A", amt: bigS("45"), signer: "C"},
+			balOp{kind: "lockMany", from: "A", amt: bigS("1"), until: 1, de: 40, signer: "C"},
+			balOp{kind: "lock", from: "A", to: "Lnext", amt: bigS("3"), until: 2, signer: "C"},
+			balOp{kind: "burn", from: "L1", amt: bigS("1"), signer: "C"},
+			balOp{kind: "tick", signer: "C", de: 1}, balOp{kind: "tick", signer: "C", de: 2}, balOp{kind: "balEpoch", signer: "C"})
 	default:
 		hpanic("BalDriver: unknown mode %s", mode)
 	}
@@ -342,6 +370,8 @@ func (d *BalDriver) OpName(n *Node, i int) string {
 			return fmt.Sprintf("%s calls balance.newEpoch(%d) signed by %s", o.via, m.epoch+2, o.signer)
 		}
 		return fmt.Sprintf("balance.newEpoch(%d) by %s", m.epoch+2, o.signer)
+	case "lockMany":
+		return fmt.Sprintf("%d x lock(%s->fresh,%s,until=%d) in one transaction by %s", o.de, f, o.amt, d.untilOf(m, o), o.signer)
 	case "lock":
 		return fmt.Sprintf("lock(%s->%s,%s,until=%d) by %s", f, t, o.amt, d.untilOf(m, o), o.signer)
 	case "burn":
@@ -353,6 +383,9 @@ func (d *BalDriver) OpName(n *Node, i int) string {
 		return fmt.Sprintf("mint(%s,%s) by %s", t, o.amt, o.signer)
 	case "probeXfer":
 		return fmt.Sprintf("Kc calls transfer(%s->%s,%s) signed by %s", f, t, o.amt, o.signer)
+	}
+	if o.data != "" {
+		return fmt.Sprintf("%s(%s->%s,%s,data:%s) by %s", o.kind, f, t, o.amt, o.data, o.signer)
 	}
 	return fmt.Sprintf("%s(%s->%s,%s) by %s", o.kind, f, t, o.amt, o.signer)
 }
@@ -367,9 +400,18 @@ func (d *BalDriver) untilOf(m *balModel, o balOp) int64 {
 func (d *BalDriver) Enabled(n *Node, i int) bool {
 	m := n.M.(*balModel)
 	o := d.ops[i]
+	if o.kind == "lockMany" {
+		return !m.bulkDone
+	}
 	if o.kind == "lock" {
 		if m.usedLocks >= 3 {
 			return false // quantifier: lock targets are fresh addresses
+		}
+		if d.Mode == "C02" {
+			// ... and fresh also means unfunded (C01 and C09 keep the funded target: finding lock-target-prefunded)
+			if _, t := d.resolve(m, o.to); m.get(Hx(t)).Sign() != 0 {
+				return false
+			}
 		}
 		if d.untilOf(m, o) < 0 {
 			return false
@@ -451,6 +493,7 @@ func (d *BalDriver) Step(x *Exec, n *Node, i int) StepResult {
 	expHalt := true
 	var expRet any
 	var expLock []any
+	extraLocks := 0 // Lock events of a lockMany operation
 	var expRelease []string
 	move := func(f, t []byte, a *big.Int, det []byte) {
 		if len(f) == 20 {
@@ -506,7 +549,17 @@ func (d *BalDriver) Step(x *Exec, n *Node, i int) StepResult {
 			nm.supply.Sub(nm.supply, amt)
 		}
 	case "transfer":
-		scr = Script(balH, "transfer", from, to, amt, nil)
+		// the data argument of the public transfer is the receiver's business: it must not change who may spend
+		var data any
+		switch o.data {
+		case "b":
+			data = []byte("d")
+		case "i":
+			data = int64(1)
+		case "a":
+			data = []any{[]byte("d"), int64(3)}
+		}
+		scr = Script(balH, "transfer", from, to, amt, data)
 		if len(to) != 20 || len(from) != 20 || !hasWitness(from) || m.get(Hx(from)).Cmp(amt) < 0 {
 			expRet = "i0"
 		} else {
@@ -540,6 +593,24 @@ func (d *BalDriver) Step(x *Exec, n *Node, i int) StepResult {
 			move(from, to, amt, append([]byte{0x03}, 't'))
 			nm.locks[Hx(to)] = lockRec{until: until, parent: Hx(from)}
 			expLock = []any{NXs("t"), NX(from), NX(to), NB(amt), NI(until)}
+		}
+	case "lockMany":
+		until := d.untilOf(m, o)
+		total := new(big.Int).Mul(amt, big.NewInt(o.de))
+		for k := int64(0); k < o.de; k++ {
+			l := make([]byte, 20)
+			l[0], l[1], l[19] = 0xb0, byte(k), 0x01
+			scr = append(scr, Script(balH, "lock", []byte("t"), from, l, amt, until)...)
+			if alpha && m.get(Hx(from)).Cmp(total) >= 0 {
+				move(from, l, amt, append([]byte{0x03}, 't'))
+				nm.locks[Hx(l)] = lockRec{until: until, parent: Hx(from)}
+				extraLocks++
+			}
+		}
+		if extraLocks == 0 {
+			expHalt = false
+		} else {
+			nm.bulkDone = true
 		}
 	case "tick":
 		e := m.epoch + o.de
@@ -627,7 +698,7 @@ func (d *BalDriver) Step(x *Exec, n *Node, i int) StepResult {
 				own := o.kind == "probeXfer" && a == Hx(d.addrs["Kc"])
 				// the Alphabet's signature authorises debits through its own methods only (transferX, lock, burn, the
 				// epoch unlock), not through the public transfer
-				alphaPath := alpha && (o.kind == "transferX" || o.kind == "lock" || o.kind == "burn" || o.kind == "tick" || strings.HasPrefix(o.kind, "balEpoch"))
+				alphaPath := alpha && (o.kind == "transferX" || o.kind == "lock" || o.kind == "lockMany" || o.kind == "burn" || o.kind == "tick" || strings.HasPrefix(o.kind, "balEpoch"))
 				if !(alphaPath || hasWitness(ab20) || own) {
 					where["account"] = d.symOf(a)
 					r := viol("unauthorised-debit", fmt.Sprintf("%s went %s -> %s in a transaction signed by %v", d.symOf(a), b, ab, o.signer))
@@ -802,6 +873,9 @@ func (d *BalDriver) Step(x *Exec, n *Node, i int) StepResult {
 	}
 	if expLock != nil {
 		want = append(want, Notif{"balance", "Lock", expLock})
+	}
+	for k := 0; k < extraLocks; k++ {
+		want = append(want, Notif{"balance", "Lock", nil})
 	}
 	// the statements fix from, to and amount of the announcements; the encoding of the details field and the argument
 	// list of the Lock event are the contract's own business
